@@ -7,13 +7,13 @@ NETS = [("material", 1), ("material", 2), ("random-small", 1), ("random-wide", 1
 
 def plan(tier, seed):
     quick = tier == "quick"
-    cases = 22 if quick else 1200
+    cases = 14 if quick else 1200
     nets = ",".join(runner.net_path(f, s) for f, s in NETS)
     shards = []
     for i in range(16):
-        variant, md = ("asan", 6) if i % 8 < 5 else ("opt", 12)
+        variant, md = ("asan", 5 if quick else 6) if i % 8 < 5 else ("opt", 9 if quick else 12)
         shards.append(dict(bin=("asan", "c03"), args=["--cases", cases if variant == "asan" else cases * 2, "--engine", build.binpath(variant, "texel"),
-                                                     "--nets", nets, "--max-depth", md]))
+                                                     "--nets", nets, "--max-depth", md] + (["--answer-ms", 40000, "--max-threads", 4] if quick else [])))
     return dict(
         builds=[("asan", "c03"), ("asan", "texel"), ("opt", "texel")],
         nets=NETS,
@@ -30,5 +30,5 @@ def plan(tier, seed):
                 "second-or-later search in the process": 200, "root without legal moves": 10, "single-legal-move root": 5},
         assumptions=["validity is judged by refchess on the transcript of the real engine binary (10 shards ASan+UBSan depth<=6, 6 shards -O2 depth<=12)",
                      "nothing is demanded about depth numbers, node counts, timing fields, or agreement between a mate score and the length of its TT-extracted pv",
-                     "a search that does not answer within 120 s is counted inconclusive"],
+                     "a search that does not answer within 120 s (quick tier: 40 s) is counted inconclusive; quick tier caps Threads at 4 and depth at 5 (ASan) / 9 (-O2)"],
     )
